@@ -92,7 +92,7 @@ func plainEnds(s string) bool {
 
 func runC15(ctx *Ctx) error {
 	r, res := ctx.Rng, ctx.Res
-	res.Rule = "on loopback TCP: (A) DialContext against this package's Listen/Accept for callsigns and passwords from three families (callsign-like, printable ASCII incl. inner spaces, arbitrary bytes without CR), both sides writing a payload immediately after login; (B) the library client against a scripted server that splits prompts at random places, sends banner and blank lines, garbage lines without the keywords, and coalesces the payload with the password prompt or sends everything in one write; (C) the library server against a scripted client that sends callsign, password and payload in one write or in random pieces; every observation compared with the model (what each side sent, what was left for Read) and judged by the property (RemoteCall = the dialler's callsign, payloads byte-exact and complete); (D) DialContext / DialTimeout / DialURL(dial_timeout) against servers that stay silent, send half a prompt, send garbage lines periodically, close at once or close after the first prompt: the call must return an error no later than its deadline (+1.5 s tolerance for scheduling on a loaded machine), and a context cancelled without deadline ends the dial as well. Non-trivial: scenario with a payload of at least one byte in each direction; distinct by scenario parameters."
+	res.Rule = "on loopback TCP: (A) DialContext against this package's Listen/Accept for callsigns and passwords from three families (callsign-like, printable ASCII incl. inner spaces, arbitrary bytes without CR), both sides writing a payload immediately after login; (B) the library client against a scripted server that splits prompts at random places, sends banner and blank lines, garbage lines without the keywords, and coalesces the payload with the password prompt or sends everything in one write; (C) the library server against a scripted client that sends callsign, password and payload in one write or in random pieces; every observation compared with the model (what each side sent, what was left for Read) and judged by the property (RemoteCall = the dialler's callsign, payloads byte-exact and complete); (D) DialContext / DialTimeout / DialURL(dial_timeout) / DialURLContext with a configured time-out and a later context deadline against servers that stay silent, send half a prompt, send garbage lines periodically, close at once or close after the first prompt: the call must return an error no later than its deadline (+1.5 s tolerance for scheduling on a loaded machine), and a context cancelled without deadline ends the dial as well. Non-trivial: scenario with a payload of at least one byte in each direction; distinct by scenario parameters."
 	if !ardLoopbackOK() {
 		res.Fail(Failure{Kind: "broken", Site: "environment", Detail: "loopback TCP is not available: the telnet package cannot be exercised"})
 		return nil
@@ -367,10 +367,11 @@ func runC15(ctx *Ctx) error {
 
 	// ---------- (D) the dial deadline
 	behaviours := []string{"silent", "half-prompt", "garbage-forever", "close-at-once", "close-after-prompt", "callsign-prompt-only"}
-	nd := ctx.N(12, 60)
+	nd := ctx.N(18, 72)
+	hows := []string{"context", "timeout", "url", "cancel", "url-and-later-context-deadline", "dialer-timeout-and-later-context-deadline"}
 	for i := 0; i < nd; i++ {
-		beh := behaviours[i%len(behaviours)]
-		how := []string{"context", "timeout", "url", "cancel"}[(i/len(behaviours))%4]
+		how := hows[i%len(hows)]
+		beh := behaviours[(i+i/len(hows))%len(behaviours)]
 		limit := time.Duration(150+r.Intn(250)) * time.Millisecond
 		desc := fmt.Sprintf("D server=%s via=%s limit=%v", beh, how, limit)
 		ctx.Mark(desc)
@@ -435,6 +436,27 @@ func runC15(ctx *Ctx) error {
 					break
 				}
 				c, err = telnet.DefaultDialer.DialURL(u)
+			case "url-and-later-context-deadline", "dialer-timeout-and-later-context-deadline":
+				// the caller's context has a deadline of its own, far later than the configured
+				// time-out: the earlier of the two limits the dial
+				dctx, cancel := context.WithTimeout(context.Background(), limit+20*time.Second)
+				var u *transport.URL
+				var perr error
+				d := telnet.Dialer{}
+				if how == "url-and-later-context-deadline" {
+					d.Timeout = 30 * time.Second
+					u, perr = transport.ParseURL(fmt.Sprintf("telnet://LA5NTA:secret@%s/wl2k?dial_timeout=%dms", ln.Addr().String(), limit.Milliseconds()))
+				} else {
+					d.Timeout = limit
+					u, perr = transport.ParseURL(fmt.Sprintf("telnet://LA5NTA:secret@%s/wl2k", ln.Addr().String()))
+				}
+				if perr != nil {
+					err = perr
+					cancel()
+					break
+				}
+				c, err = d.DialURLContext(dctx, u)
+				cancel()
 			default:
 				dctx, cancel := context.WithCancel(context.Background())
 				go func() { time.Sleep(limit); cancel() }()
